@@ -311,9 +311,10 @@ class Vector():
 			if typesafe and default_element is not None:
 				dtype = dtype.with_nullable(False)
 			return cls([default_element for _ in range(length)], dtype=dtype)
-		dtype = infer_dtype([default_element]) if default_element is not None else DataType(object)
-		if typesafe:
-			dtype = dtype.with_nullable(False).with_default(default_element)
+		# (no elements: the dtype of the element, by the same rule as for any other length)
+		dtype = infer_dtype([default_element])
+		if typesafe and default_element is not None:
+			dtype = dtype.with_nullable(False)
 		return cls(dtype=dtype)
 
 
